@@ -20,6 +20,7 @@ import Bourse.Model.Ops
 import Bourse.Spec.Audit
 import Bourse.Spec.Ref
 import Driver.Parse
+import Driver.EnvDrive
 import Std.Data.HashMap
 import Std.Data.HashSet
 
@@ -45,6 +46,7 @@ structure Hist where
 
 structure St where
   hist   : Option Hist
+  ehist  : Option EHist
   stats  : Std.HashMap String Nat
   seen   : Std.HashSet UInt64
   nHist  : Nat
@@ -107,6 +109,10 @@ def auditsFor (profile : String) : List String :=
 def emit (out : IO.FS.Stream) (s : String) : IO Unit := out.putStrLn s
 
 def finishHist (st : St) : St :=
+  let st := match st.ehist with
+    | none => st
+    | some h => { st with ehist := none, nHist := st.nHist + 1,
+                          nNontrivial := st.nNontrivial + (if h.nSteps ≥ 2 || h.kind == "market" then 1 else 0) }
   match st.hist with
   | none => st
   | some h =>
@@ -129,7 +135,10 @@ def handleHeader (st : St) (toks : List String) (out : IO.FS.Stream) : IO St := 
                         opsHash := hash (String.intercalate " " toks), nOps := 0 }
       pure { st with hist := some h }
     | _, _, _, _ => emit out s!"BAD header {toks}"; pure st
-  | _ => emit out s!"BAD header {toks}"; pure st
+  | _ =>
+    match newEHist toks with
+    | some h => pure { st with ehist := some h }
+    | none => emit out s!"BAD header {toks}"; pure st
 
 def handleObs (st : St) (toks : List String) (out : IO.FS.Stream) : IO St := do
   match st.hist with
@@ -217,6 +226,18 @@ partial def loop (inp out : IO.FS.Stream) (st : St) : IO St := do
   match toks with
   | "H" :: rest => loop inp out (← handleHeader st rest out)
   | "O" :: rest =>
+    match st.ehist with
+    | some eh =>
+      let opLine := "_".intercalate rest
+      if eh.kind == "market" then
+        match parseMOp rest with
+        | some op => loop inp out { st with ehist := some { eh with pendingM := some (op, opLine) } }
+        | none => emit out s!"BAD op {rest}"; loop inp out st
+      else
+        match parseEOp rest with
+        | some op => loop inp out { st with ehist := some { eh with pendingE := some (op, opLine) } }
+        | none => emit out s!"BAD op {rest}"; loop inp out st
+    | none =>
     match st.hist, parseOp rest with
     | some h, some op =>
       let opLine := " ".intercalate rest
@@ -224,14 +245,25 @@ partial def loop (inp out : IO.FS.Stream) (st : St) : IO St := do
                         opsHash := mixHash h.opsHash (hash opLine) }
       loop inp out { st with hist := some h }
     | _, _ => emit out s!"BAD op {rest}"; loop inp out st
-  | "I" :: rest => loop inp out (← handleObs st rest out)
+  | "I" :: rest =>
+    match st.ehist with
+    | some eh =>
+      let (eh', lines, tags) := handleEnvObs eh rest
+      for l in lines do emit out l
+      let mut stats := st.stats
+      for t in tags do stats := bump stats t
+      let nK := lines.filter (·.startsWith "K ") |>.length
+      let nA := lines.filter (·.startsWith "A ") |>.length
+      loop inp out { st with ehist := some eh', stats := stats, nOps := st.nOps + (if tags.isEmpty then 0 else 1),
+                             nK := st.nK + nK, nA := st.nA + nA }
+    | none => loop inp out (← handleObs st rest out)
   | [] => loop inp out st
   | _ => emit out s!"BAD line {line}"; loop inp out st
 
 def main : IO UInt32 := do
   let inp ← IO.getStdin
   let out ← IO.getStdout
-  let st0 : St := { hist := none, stats := {}, seen := {}, nHist := 0, nOps := 0, nNontrivial := 0,
+  let st0 : St := { hist := none, ehist := none, stats := {}, seen := {}, nHist := 0, nOps := 0, nNontrivial := 0,
                     nK := 0, nR := 0, nA := 0 }
   let st ← loop inp out st0
   for (k, v) in st.stats.toList do
